@@ -127,9 +127,11 @@ func objectsOf(v interface{}) []map[string]interface{} {
 	return out
 }
 
-// validURI is RFC 3986's "URI" production, checked character by character: scheme ":" hier-part [ "?" query ]
-// [ "#" fragment ] over the unreserved / reserved characters and well-formed percent-encodings. (Independent of
-// net/url: a request target such as "*" or "/path", or text with blanks, is not a URI.)
+// validURI is RFC 3986's "URI" production (appendix A), followed by hand: scheme ":" hier-part [ "?" query ]
+// [ "#" fragment ], hier-part = "//" authority path-abempty / path-absolute / path-rootless / path-empty, authority =
+// [ userinfo "@" ] host [ ":" port ], host = IP-literal / IPv4address / reg-name - square brackets belong around an IP
+// literal only, '@' ends the user information once, a port is a number. (Independent of net/url: a request target such
+// as "*" or "/path", or text with blanks, is not a URI.)
 func validURI(s string) bool {
 	i := strings.IndexByte(s, ':')
 	if i <= 0 {
@@ -142,23 +144,178 @@ func validURI(s string) bool {
 		}
 	}
 	rest := s[i+1:]
-	hashes := 0
-	for k := 0; k < len(rest); k++ {
-		c := rest[k]
+	fragment, query := "", ""
+	if k := strings.IndexByte(rest, '#'); k >= 0 {
+		rest, fragment = rest[:k], rest[k+1:]
+	}
+	if k := strings.IndexByte(rest, '?'); k >= 0 {
+		rest, query = rest[:k], rest[k+1:]
+	}
+	if !uriChars(query, "/?:@") || !uriChars(fragment, "/?:@") {
+		return false
+	}
+	path := rest
+	if strings.HasPrefix(rest, "//") {
+		authority := rest[2:]
+		path = ""
+		if k := strings.IndexByte(authority, '/'); k >= 0 {
+			authority, path = authority[:k], authority[k:]
+		}
+		if !validAuthority(authority) {
+			return false
+		}
+	}
+	// path-abempty / path-absolute / path-rootless / path-empty: segments of pchar separated by "/"
+	for _, seg := range strings.Split(path, "/") {
+		if !uriChars(seg, ":@") {
+			return false
+		}
+	}
+	return true
+}
+
+// uriChars: unreserved / pct-encoded / sub-delims plus the given extra characters.
+func uriChars(s, extra string) bool {
+	for k := 0; k < len(s); k++ {
+		c := s[k]
 		switch {
 		case (c >= 'a' && c <= 'z') || (c >= 'A' && c <= 'Z') || (c >= '0' && c <= '9'):
-		case strings.IndexByte("-._~:/?[]@!$&'()*+,;=", c) >= 0:
-		case c == '#':
-			hashes++
-			if hashes > 1 {
-				return false
-			}
+		case strings.IndexByte("-._~!$&'()*+,;=", c) >= 0 || strings.IndexByte(extra, c) >= 0:
 		case c == '%':
-			if k+2 >= len(rest) || !isHex(rest[k+1]) || !isHex(rest[k+2]) {
+			if k+2 >= len(s) || !isHex(s[k+1]) || !isHex(s[k+2]) {
 				return false
 			}
 			k += 2
 		default:
+			return false
+		}
+	}
+	return true
+}
+
+func validAuthority(a string) bool {
+	if k := strings.LastIndexByte(a, '@'); k >= 0 {
+		if !uriChars(a[:k], ":") {
+			return false
+		}
+		a = a[k+1:]
+	}
+	host, port := a, ""
+	if strings.HasPrefix(a, "[") {
+		k := strings.IndexByte(a, ']')
+		if k < 0 {
+			return false
+		}
+		host, port = a[:k+1], a[k+1:]
+		if port != "" {
+			if port[0] != ':' {
+				return false
+			}
+			port = port[1:]
+		}
+		inner := host[1 : len(host)-1]
+		if !(validIPv6(inner) || validIPvFuture(inner)) {
+			return false
+		}
+	} else {
+		if k := strings.LastIndexByte(a, ':'); k >= 0 {
+			host, port = a[:k], a[k+1:]
+		}
+		if !uriChars(host, "") { // reg-name (an IPv4 address is one too)
+			return false
+		}
+	}
+	for _, c := range port {
+		if c < '0' || c > '9' {
+			return false
+		}
+	}
+	return true
+}
+
+func validIPvFuture(s string) bool {
+	if len(s) < 4 || (s[0] != 'v' && s[0] != 'V') {
+		return false
+	}
+	dot := strings.IndexByte(s, '.')
+	if dot < 2 || dot == len(s)-1 {
+		return false
+	}
+	for _, c := range []byte(s[1:dot]) {
+		if !isHex(c) {
+			return false
+		}
+	}
+	return !strings.Contains(s[dot+1:], "%") && uriChars(s[dot+1:], ":")
+}
+
+// validIPv6: up to eight groups of 1-4 hex digits, at most one "::" standing for one or more zero groups, optionally an
+// IPv4 address in place of the last two groups.
+func validIPv6(s string) bool {
+	if s == "" {
+		return false
+	}
+	groups := func(part string) (n int, ok bool) {
+		if part == "" {
+			return 0, true
+		}
+		gs := strings.Split(part, ":")
+		for k, g := range gs {
+			if k == len(gs)-1 && strings.Contains(g, ".") {
+				if !validIPv4(g) {
+					return 0, false
+				}
+				n += 2
+				continue
+			}
+			if len(g) < 1 || len(g) > 4 {
+				return 0, false
+			}
+			for _, c := range []byte(g) {
+				if !isHex(c) {
+					return 0, false
+				}
+			}
+			n++
+		}
+		return n, true
+	}
+	if k := strings.Index(s, "::"); k >= 0 {
+		left, right := s[:k], s[k+2:]
+		if strings.Contains(right, "::") {
+			return false
+		}
+		// an IPv4 tail is allowed on the right-hand side only (or on the left when nothing follows "::" - no: the
+		// grammar puts ls32 last, so a left part never ends in an IPv4 address unless the right part is empty, and even
+		// then "::" comes last, behind h16 groups only)
+		if strings.Contains(left, ".") {
+			return false
+		}
+		nl, okl := groups(left)
+		nr, okr := groups(right)
+		return okl && okr && nl+nr <= 7
+	}
+	n, ok := groups(s)
+	return ok && n == 8
+}
+
+func validIPv4(s string) bool {
+	parts := strings.Split(s, ".")
+	if len(parts) != 4 {
+		return false
+	}
+	for _, p := range parts {
+		if p == "" || len(p) > 3 || (len(p) > 1 && p[0] == '0') {
+			return false
+		}
+		v := 0
+		for _, c := range p {
+			if c < '0' || c > '9' {
+				return false
+			}
+			v = v*10 + int(c-'0')
+		}
+		if v > 255 {
 			return false
 		}
 	}
@@ -485,7 +642,10 @@ func nearMissKey(t *rapid.T) map[string]interface{} {
 func nearMissService(t *rapid.T) map[string]interface{} {
 	s := gen.DocService(t, rapid.SampledFrom(gen.SvcIDAlphabet).Draw(t, "svcId"))
 	bad := rapid.SampledFrom([]string{"", "not a uri", "://x", "relative/path", "http//missing-colon", "#frag", " https://lead.space", "\x7f",
-		"*", "/", "//", "/abs/path", "/ <>", "?q=1", "x:y z", "http://example.com/a b", "http://example.com/<x>", "http://example.com/\"q\"", "1http://x.example", "http://a.example/%zz", "http://a.example/%4", "http://a.example/\u00fc", "http://a.example/#a#b", "http://a.example/{x}", "http://a.example/a|b", "http://a.example/a\\b", "http://a.example/^"}).Draw(t, "badURI")
+		"*", "/", "//", "/abs/path", "/ <>", "?q=1", "x:y z", "http://example.com/a b", "http://example.com/<x>", "http://example.com/\"q\"", "1http://x.example", "http://a.example/%zz", "http://a.example/%4", "http://a.example/\u00fc", "http://a.example/#a#b", "http://a.example/{x}", "http://a.example/a|b", "http://a.example/a\\b", "http://a.example/^",
+		// characters of the URI alphabet in places where the grammar does not have them
+		"http://]", "x://][", "http://exa[mple.com/", "http://a/b[c]d", "https://example.com/]?q", "x:[", "http://@@", "http://:::", "http://a:b:c", "http://[::1",
+		"http://[::1]x/", "http://[1::2::3]/", "http://[12345::]/", "http://[v1]/", "http://a.example:8o/", "http://a.example/?q=[", "did:example:1#[", "http://u@v@w.example/"}).Draw(t, "badURI")
 	switch rapid.IntRange(0, 12).Draw(t, "svcDefect") {
 	case 0:
 		s["id"] = rapid.SampledFrom([]string{"", strings.Repeat("s", 51), "a b", "s/1", strings.Repeat("s", 50), "s" + string(rune(rapid.IntRange(0, 0x17f).Draw(t, "idChar")))}).Draw(t, "badId")
